@@ -144,14 +144,14 @@ func loadMachine(repoDir, harnessDir string, patterns []string) (*machine, error
 	m.execPrefixes = []string{
 		"berty.tech/go-orbit-db", "berty.tech/go-ipfs-log",
 		"errors", "sort", "path", "unicode/utf8", "unicode", "encoding/binary", "bufio", "io", "container/list",
-		"golang.org/x/sync/semaphore", "strconv", "math/bits", "bytes", "strings", "slices", "cmp",
+		"golang.org/x/sync/semaphore", "strconv", "container/heap", "math", "math/bits", "bytes", "strings", "slices", "cmp",
 		"github.com/ipfs/go-datastore", "github.com/ipfs/go-datastore/query",
 	}
 	m.initPrefixes = []string{
 		"berty.tech/go-orbit-db", "berty.tech/go-ipfs-log", "errors", "io", "bufio", "encoding/binary",
 		"github.com/ipfs/go-datastore", "context", "path", "golang.org/x/sync/semaphore",
 	}
-	m.zeroPolicy = []string{"go.uber.org/zap", "go.opentelemetry.io/otel"}
+	m.zeroPolicy = []string{"go.uber.org/zap", "go.opentelemetry.io/otel", "github.com/ipfs/kubo/core/coreiface/options"}
 	m.registerIntrinsics()
 	return m, nil
 }
